@@ -337,6 +337,8 @@ func c06Build(r *sim.Run, t *sim.Tape, scheme string, first bool) (*mp4.InitSegm
 	if first {
 		r.Event("codec", int(sim.HashString(p.Codec)&0xff), btoi(synthetic))
 	}
+	// HEVC: IDR pictures labelled IDR_W_RADL (19) instead of IDR_N_LP (20): same slice syntax, another NAL unit type
+	relabelIDR := (p.Codec == "hvc1" || p.Codec == "hev1") && t.Chance(400)
 	nSegs := 1 + t.Draw(3)
 	var segs []*mp4.MediaSegment
 	poolPos := 0
@@ -391,6 +393,9 @@ func c06Build(r *sim.Run, t *sim.Tape, scheme string, first bool) (*mp4.InitSegm
 				if pool != nil {
 					rec = pool[poolPos%len(pool)]
 					poolPos++
+					if relabelIDR {
+						rec.Data = hevcRelabelIDR(rec.Data)
+					}
 				} else if p.Media == "video" {
 					rec = work.SampleRec{Data: synthNALSample(t, rnd), Dur: 3000, Flags: mp4.NonSyncSampleFlags, Cto: int32(t.Draw(3)) * 3000}
 				} else {
@@ -415,6 +420,22 @@ func c06Build(r *sim.Run, t *sim.Tape, scheme string, first bool) (*mp4.InitSegm
 		p.Frags = append(p.Frags, frs)
 	}
 	return init, segs, p, nil
+}
+
+// hevcRelabelIDR returns a copy of a length-prefixed HEVC sample in which every NAL unit of type 20 has type 19.
+func hevcRelabelIDR(sample []byte) []byte {
+	out := append([]byte(nil), sample...)
+	for pos := 0; pos+6 <= len(out); {
+		n := int(binary.BigEndian.Uint32(out[pos:]))
+		if n < 2 || pos+4+n > len(out) {
+			break
+		}
+		if out[pos+4]>>1&0x3f == 20 {
+			out[pos+4] = out[pos+4]&0x81 | 19<<1
+		}
+		pos += 4 + n
+	}
+	return out
 }
 
 func synthNALSample(t *sim.Tape, rnd *sim.Rand) []byte {
